@@ -85,3 +85,61 @@ func H_C04_exact() {
 	verifAssert(ib.String() == refImportBlock(entries, nil), "import block lists exactly the used and anonymous paths, each once")
 	verifAssert(verifHasPrefix(buf.String(), "package p\n\n"+ib.String()), "the rendered file has that import block right after the package clause")
 }
+
+// Dict pairs: a key's package is imported iff its own pair is rendered, whatever the other pairs
+// of the same Dict do (a Dict with at least one rendered pair is rendered, the omitted pairs of it
+// must leave no trace)
+func H_C04_dict_pairs() {
+	impSummaries()
+	canonicalMapOrder()
+	f := NewFile("p")
+	f.NoFormat = true
+	p0, p1 := leadPath(0), leadPath(1)
+	v0, v1 := &symCode{id: "i0"}, &symCode{id: "i1"}
+	var d Dict
+	switch nondetChoice("shape", 3) {
+	case 0:
+		d = Dict{Qual(p0, "K"): v0, Qual(p1, "L"): v1}
+	case 1:
+		d = Dict{Qual(p0, "K"): v0, &leadCode{id: "k1", lead: "z"}: v1}
+	case 2:
+		// the reference sits in the value of a pair whose key is null
+		d = Dict{Null(): Qual(p0, "K"), Qual(p1, "L"): v1}
+	}
+	f.Add(Id("T").Values(d))
+	buf := &bytes.Buffer{}
+	err := f.Render(buf)
+	verifAssert(err == nil, "render succeeds")
+	null0, null1 := nondetBool("null_i0"), nondetBool("null_i1")
+	var entries []refImp
+	switch nondetChoice("shape", 3) {
+	case 0:
+		verifAssert((f.imports[p0].name != "") == !null0, "Dict key reference imported iff its pair is rendered")
+		verifAssert((f.imports[p1].name != "") == !null1, "Dict key reference imported iff its pair is rendered")
+		if !null0 {
+			entries = append(entries, refImp{p0, f.imports[p0].name, f.imports[p0].alias})
+		}
+		if !null1 {
+			entries = append(entries, refImp{p1, f.imports[p1].name, f.imports[p1].alias})
+		}
+	case 1:
+		verifAssert((f.imports[p0].name != "") == !null0, "Dict key reference imported iff its pair is rendered")
+		if !null0 {
+			entries = append(entries, refImp{p0, f.imports[p0].name, f.imports[p0].alias})
+		}
+	case 2:
+		verifAssert(f.imports[p0].name == "", "the value of a pair with a null key is not rendered, so not imported")
+		verifAssert((f.imports[p1].name != "") == !null1, "Dict key reference imported iff its pair is rendered")
+		if !null1 {
+			entries = append(entries, refImp{p1, f.imports[p1].name, f.imports[p1].alias})
+		}
+	}
+	n := 0
+	for range entries {
+		n++
+	}
+	verifAssert(len(f.imports) == n, "nothing else is imported")
+	ib := &bytes.Buffer{}
+	f.renderImports(ib)
+	verifAssert(ib.String() == refImportBlock(entries, nil), "import block lists exactly the used paths, each once")
+}
